@@ -221,7 +221,7 @@ def run(rep: Report, prog: Program, tier: str) -> None:
     # negative or huge and ends in struct.pack or an index)
     from .common import none_arith_rule, serial_subrule
     none_arith_rule(rep, prog, PROP, "C05-NONE")
-    serial_subrule(rep, prog, tier, PROP, "C05-SERIAL", ["rtcsctptransport", "rtcrtpreceiver", "jitterbuffer", "rtp"], 30,
+    serial_subrule(rep, prog, tier, PROP, "C05-SERIAL", ["rtcsctptransport", "rtcrtpreceiver", "rtcrtpsender", "jitterbuffer", "rtp"], 30,
                    "serial-number discipline (C17 rule set) on the receive path: a raw difference / comparison of wrapping counters yields negative or huge values that end in struct.pack or an index")
 
     # (j) codec payloads: the decoders run in a worker thread fed through a queue; whatever FFmpeg thinks of a payload must not end that thread, and the
